@@ -1,11 +1,17 @@
 (* entry of property C01: the shared cycle entry (selectors 1, 101-103) plus
      2    pure readiness: a job with its tasks -> JobReady / JobPipelined / JobStarving / JobValid
+     3    pure sub-group readiness: a job WITH sub-group policies -> JobReady / JobPipelined / JobStarving /
+          JobValid and SubJobReady / SubJobPipelined of every sub-job
+     4    law-only cycles: the spec decodes (numbers of jobs / tasks / actions); nothing is replayed
+     105  law (law-only streams: sub-group jobs through allocateForJob; action lists with preempt / reclaim):
+          the property's wording incl. the sub-group clause on the binds the cache received
      104  law: along the model's replay of the real cycle's choices, every attempt of an action
           list with at most one `allocate` satisfies the guard of bind_only_when_gang_ok *)
 From stdpp Require Import gmap.
 From Coq Require Import ZArith List.
 From V Require Import Base.Codec Base.Res Sched.LedgerModel Sched.StmtModel Sched.LedgerCodec Sched.GangModel
-                      Sched.CycleModel Sched.CycleCodec Sched.CycleEntry Sched.GangValid Sched.GangLemmasMain.
+                      Sched.CycleModel Sched.CycleCodec Sched.CycleEntry Sched.GangValid Sched.GangLemmasMain
+                      Sched.SubGroupModel Sched.SubGroupLaw.
 Import ListNotations.
 Open Scope Z_scope.
 
@@ -25,6 +31,17 @@ Definition ready_entry (toks : list Z) : list Z :=
   | None => bad_input
   end.
 
+Definition sg_entry (toks : list Z) : list Z :=
+  match run_dec dSgIn toks with
+  | Some (m, rm, ps, ts) =>
+    let '(h, sg) := build_sg 1%positive m rm ps ts in
+    eBool (gang_job_ready_sub h sg) ++ eBool (gang_job_pipelined_sub h sg) ++
+    eBool (gang_job_starving (sg_job sg)) ++ [gang_job_valid_sub h sg] ++
+    eList (fun kv : positive * subjob => [Zpos (fst kv)] ++ eBool (ssn_sub_ready h sg (snd kv)) ++ eBool (ssn_sub_pipelined h sg (snd kv)))
+          (sort_kv (map_to_list (j_subs (sg_job sg))))
+  | None => bad_input
+  end.
+
 Definition count_allocate (acts : list Z) : nat := length (filter (fun a => a =? 1) acts).
 
 Definition law_guard (c : cycle_case) : bool :=
@@ -34,6 +51,9 @@ Definition law_guard (c : cycle_case) : bool :=
 Definition entry (sel : Z) (toks : list Z) : list Z :=
   match sel with
   | 2 => ready_entry toks
+  | 3 => sg_entry toks
+  | 4 => match run_dec dMixCounts toks with Some l => l | None => bad_input end
+  | 105 => match run_dec dLaw105 toks with Some (js, ts, b) => eBool (law_gang_sub js ts b) | None => bad_input end
   | 104 => match run_dec dLawIn toks with Some (c, _, _) => eBool (law_guard c) | None => bad_input end
   | _ => cycle_entry sel toks
   end.
